@@ -555,7 +555,7 @@ func zz2NewWorld(layers int, arbitrary bool, lower func(*zz2Back) Blockstore, lr
 	// the key that single-key operations will address gets every state; the other key a reduced set when the
 	// composite's state space would otherwise be too large (REDUCE: 0 none, 1 three states, 2 two states)
 	reduce := verifrt.Param("REDUCE", 0)
-	if arbitrary {
+	if arbitrary && verifrt.Param("NOFOCUS", 0) == 0 {
 		w.focus = zz2Range("focus", 0, len(w.pool)-1)
 	}
 	st := make([]int, len(w.pool))
@@ -848,6 +848,12 @@ func zz2SetEnum(w *zz2World, tag string) (complete bool, cancel bool) {
 		if p {
 			n++
 		}
+	}
+	if verifrt.Param("ENUMLITE", 0) == 1 {
+		// complete, or failing before the first key
+		w.back.enumMode = zz2Range(tag+".mode", 0, 1)
+		w.back.enumAt = 0
+		return w.back.enumMode == 0, false
 	}
 	w.back.enumMode = zz2Range(tag+".mode", 0, 2)
 	w.back.enumAt = 0
